@@ -7,7 +7,7 @@ PRECS = {"s": 1, "d": 2, "c": 3, "z": 4}
 
 
 def driver(prec="d", variant="verif"):
-    return build.harness("drv_pipe_" + prec, ["drv_pipe.c", "verif_rt.c"], variant=variant, defines=["PREC=%d" % PRECS[prec]])
+    return build.harness("drv_pipe_" + prec, ["drv_pipe.c", "verif_rt.c"], variant=variant, defines=["PREC=%d" % PRECS[prec]], wrap=["pthread_mutex_unlock"])
 
 
 def job_line(j):
@@ -36,6 +36,8 @@ def random_job(rng, idx, outdir, nmax=40, threads=(2, 3, 4, 8), kinds=("forest",
     else:
         k = rng.randint(2, max(2, int(nmax ** 0.5)))
         j.update(kl=k, n=k * k, order=rng.choice([-1, 1, 2, 3]))
+    if rng.random() < 0.6:     # widen the windows right after the library's critical sections
+        j.update(focus="unlock", focuspct=rng.choice([30, 50, 70]), focusus=rng.choice([100, 300, 600]))
     j["out"] = os.path.join(outdir, j["id"] + ".ndjson")
     return j
 
@@ -75,6 +77,14 @@ def validate(jobs, status, workdir, design=None, workers=NCPU, timeout=300):
     def one(j):
         if status.get(j["id"]) != "ok" or not os.path.exists(j["out"]):
             return (j, None)
+        try:
+            with open(j["out"]) as fh:
+                first = fh.read(12)
+            if not first.startswith('{"e":"Config'):
+                if not prepare(j["out"]):
+                    return (j, {"ok": False, "timeout": False, "violated": [], "rejected_line": None, "errors": ["no factorization recorded"], "generated": 0, "distinct": 0, "out": ""})
+        except OSError:
+            return (j, None)
         r = tlc.pipe_trace(workdir, j["id"], j["out"], design=design, timeout=timeout)
         if not r["ok"] and not r["timeout"]:
             r2 = tlc.pipe_trace(workdir, j["id"] + "r", j["out"], design=design, timeout=timeout)   # a rejection must repeat
@@ -83,6 +93,49 @@ def validate(jobs, status, workdir, design=None, workers=NCPU, timeout=300):
                 r["flaky"] = True
         return (j, r)
     return pmap(one, jobs, workers=workers)
+
+
+def prepare(path):
+    """Turn a raw event file into per-factorization trace files:
+    line 1 = Config synthesized from the logged Etree/SuperBnd/Create events (the elimination tree,
+    H-partition and tuning parameters the library itself computed), line 2 = Create, then the events,
+    then the Result record of the harness (if any).  Returns the list of files written."""
+    with open(path) as f:
+        lines = [l for l in f.read().splitlines() if l]
+    meta = {}
+    segs, cur = [], None
+    for ln in lines:
+        if ln.startswith('{"e":"Meta"'):
+            meta = json.loads(ln)
+            continue
+        if ln.startswith('{"e":"Etree"'):
+            cur = {"etree": json.loads(ln), "lines": []}
+            segs.append(cur)
+            continue
+        if cur is None:
+            continue
+        if ln.startswith('{"e":"SuperBnd"'):
+            cur["sbnd"] = json.loads(ln)
+        elif ln.startswith('{"e":"Create"'):
+            cur["create"] = ln
+        else:
+            cur["lines"].append(ln)
+    outs = []
+    for k, sg in enumerate(segs):
+        if "create" not in sg or "sbnd" not in sg:
+            continue
+        cr = json.loads(sg["create"])
+        a = cr["a"]
+        cfg = {"e": "Config", "id": meta.get("id", "?"), "prec": meta.get("prec", "?"), "n": a[1], "P": a[0],
+               "ps": a[5], "relax": a[6], "maxsuper": a[7], "overflow": meta.get("overflow", 0),
+               "etree": [x + 1 for x in sg["etree"]["l"]],
+               "sbnd": [i + 1 for i, x in enumerate(sg["sbnd"]["l"]) if x != 0]}
+        out = path if (len(segs) == 1) else path.replace(".ndjson", "") + ".f%d.ndjson" % k
+        with open(out + ".tmp", "w") as f:
+            f.write(json.dumps(cfg) + "\n" + sg["create"] + "\n" + "\n".join(sg["lines"]) + "\n")
+        os.replace(out + ".tmp", out)
+        outs.append(out)
+    return outs
 
 
 def trace_info(path):
